@@ -67,6 +67,51 @@ def stereo_kernels(funcs, consts):
     return out
 
 
+def so3_kernels(funcs, consts):
+    """one grid quaternion of `_three_uniform_samples_method` (C19): the statements between the flattened meshes
+    (`X = inputs[k].flatten()`) and the array of the four components (`q = np.asarray([.., .., .., ..])`), executed on three
+    symbolic scalars in place of the meshes; returns [(lean name, arity, text)]"""
+    f = funcs.get("_three_uniform_samples_method")
+    if f is None:
+        raise py2lean.Unsupported("function not found")
+    mesh, start = {}, None
+    for i, st in enumerate(f.body):
+        if isinstance(st, ast.Assign) and len(st.targets) == 1 and isinstance(st.targets[0], ast.Name):
+            v = st.value
+            if (isinstance(v, ast.Call) and isinstance(v.func, ast.Attribute) and v.func.attr in ("flatten", "ravel")
+                    and isinstance(v.func.value, ast.Subscript)):
+                try:
+                    k = ast.literal_eval(v.func.value.slice)
+                except Exception:
+                    continue
+                if isinstance(k, int):
+                    mesh[k] = st.targets[0].id
+                    start = i
+    if sorted(mesh) != [0, 1, 2]:
+        raise py2lean.Unsupported("flattened meshes not found")
+    end = target = None
+    for j in range(start + 1, len(f.body)):
+        st = f.body[j]
+        if isinstance(st, ast.Assign) and len(st.targets) == 1 and isinstance(st.targets[0], ast.Name) \
+                and isinstance(st.value, ast.Call) and st.value.args and isinstance(st.value.args[0], ast.List) \
+                and len(st.value.args[0].elts) == 4:
+            end, target = j, st.targets[0].id
+            break
+    if end is None:
+        raise py2lean.Unsupported("array of the four components not found")
+    interp = py2lean.Interp(funcs, dict(consts))
+    vals, flat = py2lean.sym_params(interp, [("u1", None), ("u2", None), ("u3", None)])
+    r = interp.exec_block(f.body[start + 1:end + 1], {mesh[0]: vals[0], mesh[1]: vals[1], mesh[2]: vals[2]})
+    if r[0] != "fall":
+        raise py2lean.Unsupported("early return")
+    value = r[1][target]
+    if not isinstance(value, list) or len(value) != 4:
+        raise py2lean.Unsupported("component list")
+    return [("so3_quat_point", 3, py2lean.emit_def(
+        "so3_quat_point", flat, value, interp,
+        doc="orix/sampling/SO3_sampling.py::_three_uniform_samples_method (one grid quaternion from u1, u2, u3)"))]
+
+
 def module_constants():
     """numeric module-level constants of orix/constants.py, read from its AST"""
     out = {}
@@ -175,6 +220,14 @@ def generate():
     except (py2lean.Unsupported, KeyError, IndexError, TypeError) as e:
         for lean in ("vector2xy", "xy2vector"):
             status.setdefault(lean, f"not translated: {e}")
+    try:
+        rel = "orix/sampling/SO3_sampling.py"
+        for lean, n, text in so3_kernels(cache.setdefault(rel, load_funcs(rel)), consts):
+            parts.append(text)
+            status[lean] = "translated"
+            extra_arity[lean] = n
+    except (py2lean.Unsupported, KeyError, IndexError, TypeError, AttributeError) as e:
+        status.setdefault("so3_quat_point", f"not translated: {e}")
     # registry for the driver: name -> list function
     reg = ["/-- generated kernels by name, as list functions (for the line-protocol driver) -/",
            "def registry {α : Type} [Scalar α] : List (String × (List α → Option (List α))) := ["]
